@@ -66,6 +66,8 @@ def explore_only() -> Dict[str, List[Dict[str, Any]]]:
         # the other public entry points of a socket (silent, structured): the same channel operations
         "silent-entry-points": [dict(ep("A", "B", 0, False, c, s("a1"), s("a2"), ["recvnb", None]), api="silent"),
                                 dict(ep("B", "A", 0, False, c, ["recvnb", None], r, ["recvnb", None]), api="silent")],
+        "structured-running-list": [dict(ep("A", "B", 0, False, c, s("a1"), s("a1+a2"), s("a1+a2+a3")), api="structured-running-list"),
+                                    dict(ep("B", "A", 0, False, c, r, r, r), api="structured-running-list")],
         "structured-entry-points": [dict(ep("A", "B", 0, False, c, s("a1"), ["recvnb", None]), api="structured"),
                                     dict(ep("B", "A", 0, False, c, r, ["recvnb", None]), api="structured")],
         # a broadcast channel (one socket per remote behind one receive): per remote, messages come out in sending order
